@@ -89,6 +89,12 @@ pub fn c04_applicable(ty: BufTy, state: &[u8], op: &MOp) -> bool {
 /// Execute `op` on a fresh buffer holding `state`; return the new text and run every
 /// accessor on the result (they trust the buffer without re-checking it).
 fn c04_exec(ty: BufTy, state: &[u8], op: &MOp) -> Vec<u8> {
+	c04_exec_seq(ty, state, std::slice::from_ref(op), false)
+}
+
+/// Execute a sequence of operations on ONE live buffer holding `state` at first (exact or spare
+/// capacity); return the final text and run every accessor on the result.
+fn c04_exec_seq(ty: BufTy, state: &[u8], ops: &[MOp], spare_capacity: bool) -> Vec<u8> {
 	fn touch_ref(r: &RiRef) {
 		let p = r.parts();
 		let _ = (r.scheme(), r.query(), r.fragment(), p.path.as_bytes().len());
@@ -102,22 +108,24 @@ fn c04_exec(ty: BufTy, state: &[u8], op: &MOp) -> Vec<u8> {
 	}
 	match ty {
 		BufTy::RiRefBuf => {
-			let mut b = rirefbuf_of(state).expect("state is a valid reference");
-			match op {
-				MOp::Set(o) => apply_setter_riref(&mut b, o),
-				MOp::Path(o) => {
-					let mut h = b.path_mut();
-					apply_pathmut(&mut h, o);
-					let _ = h.as_bytes().len();
-				}
-				MOp::Auth(o) => {
-					let mut h = b.authority_mut().expect("state has an authority");
-					apply_authmut(&mut h, o);
-					let _ = h.as_authority().as_bytes().len();
-				}
-				MOp::Resolve(base) => {
-					let base = Ri::new(inp(base).expect("utf8")).ok().expect("valid base");
-					b.resolve(base);
+			let mut b = if spare_capacity { rirefbuf_spare(state) } else { rirefbuf_of(state) }.expect("state is a valid reference");
+			for op in ops {
+				match op {
+					MOp::Set(o) => apply_setter_riref(&mut b, o),
+					MOp::Path(o) => {
+						let mut h = b.path_mut();
+						apply_pathmut(&mut h, o);
+						let _ = h.as_bytes().len();
+					}
+					MOp::Auth(o) => {
+						let mut h = b.authority_mut().expect("state has an authority");
+						apply_authmut(&mut h, o);
+						let _ = h.as_authority().as_bytes().len();
+					}
+					MOp::Resolve(base) => {
+						let base = Ri::new(inp(base).expect("utf8")).ok().expect("valid base");
+						b.resolve(base);
+					}
 				}
 			}
 			let t = b.as_bytes().to_vec();
@@ -127,20 +135,22 @@ fn c04_exec(ty: BufTy, state: &[u8], op: &MOp) -> Vec<u8> {
 			t
 		}
 		BufTy::RiBuf => {
-			let mut b = ribuf_of(state).expect("state is a valid URI/IRI");
-			match op {
-				MOp::Set(o) => apply_setter_ri(&mut b, o),
-				MOp::Path(o) => {
-					let mut h = b.path_mut();
-					apply_pathmut(&mut h, o);
-					let _ = h.as_bytes().len();
+			let mut b = if spare_capacity { ribuf_spare(state) } else { ribuf_of(state) }.expect("state is a valid URI/IRI");
+			for op in ops {
+				match op {
+					MOp::Set(o) => apply_setter_ri(&mut b, o),
+					MOp::Path(o) => {
+						let mut h = b.path_mut();
+						apply_pathmut(&mut h, o);
+						let _ = h.as_bytes().len();
+					}
+					MOp::Auth(o) => {
+						let mut h = b.authority_mut().expect("state has an authority");
+						apply_authmut(&mut h, o);
+						let _ = h.as_authority().as_bytes().len();
+					}
+					MOp::Resolve(_) => unreachable!(),
 				}
-				MOp::Auth(o) => {
-					let mut h = b.authority_mut().expect("state has an authority");
-					apply_authmut(&mut h, o);
-					let _ = h.as_authority().as_bytes().len();
-				}
-				MOp::Resolve(_) => unreachable!(),
 			}
 			let t = b.as_bytes().to_vec();
 			if std::str::from_utf8(&t).is_ok() || FAMILY == Family::Uri {
@@ -150,10 +160,12 @@ fn c04_exec(ty: BufTy, state: &[u8], op: &MOp) -> Vec<u8> {
 			t
 		}
 		BufTy::PathBuf => {
-			let mut b = pathbuf_of(state).expect("state is a valid path");
-			match op {
-				MOp::Path(o) => apply_pathbuf(&mut b, o),
-				_ => unreachable!(),
+			let mut b = if spare_capacity { pathbuf_spare(state) } else { pathbuf_of(state) }.expect("state is a valid path");
+			for op in ops {
+				match op {
+					MOp::Path(o) => apply_pathbuf(&mut b, o),
+					_ => unreachable!(),
+				}
 			}
 			let t = b.as_bytes().to_vec();
 			let _ = (b.segments().count(), b.normalized_segments().len(), b.parent().map(|p| p.as_bytes().len()));
@@ -187,6 +199,30 @@ pub fn c04_step(ty: BufTy, init: &[u8], history: &[MOp], state: &[u8], op: &MOp,
 			if !valid(ty.kind(), &t) || !refs.valid(ty.kind(), &t) {
 				out.push(mk("re-parse").obs(format!("{:?} -> {:?}", lossy(state), lossy(&t))).exp(format!("a valid {}", ty.kind().name())));
 				return None;
+			}
+			// the buffer's spare capacity is hidden state of the splice primitives: the same
+			// call on a buffer with spare capacity, and the whole history replayed on ONE live
+			// buffer (exact and spare), must give the same text
+			let mut variants: Vec<(&str, Guard<Vec<u8>>)> = vec![("spare-capacity", guard(|| c04_exec_seq(ty, state, std::slice::from_ref(op), true)))];
+			if !history.is_empty() {
+				let mut all: Vec<MOp> = history.to_vec();
+				all.push(op.clone());
+				variants.push(("one-live-buffer", guard(|| c04_exec_seq(ty, init, &all, false))));
+				variants.push(("one-live-buffer+spare-capacity", guard(|| c04_exec_seq(ty, init, &all, true))));
+			}
+			for (name, g) in variants {
+				match g {
+					Guard::Ok(t2) => {
+						if t2 != t {
+							out.push(mk("buffer-capacity").feat("variant", name).obs(format!("{name}: {:?}", lossy(&t2))).exp(format!("{:?} (fresh exact-capacity buffer)", lossy(&t))));
+							return None;
+						}
+					}
+					Guard::Panic(pm) => {
+						out.push(mk("panic").feat("variant", name).feat("panic_at", panic_site(&pm)).obs(format!("{name}: panic: {pm}")).exp("no panic"));
+						return None;
+					}
+				}
 			}
 			Some(t)
 		}
